@@ -36,6 +36,9 @@ Cfgs == {[chain |-> c, pns |-> p, arg |-> a, dep |-> d, style |-> s, ring |-> r,
         \cup {[chain |-> "two", pns |-> "foreign", arg |-> "struct", dep |-> "none", style |-> "rpc", ring |-> TRUE, rsv |-> FALSE]}
         \cup {[chain |-> ch, pns |-> p, arg |-> a, dep |-> "none", style |-> "rpc", ring |-> FALSE, rsv |-> TRUE] :
                 ch \in {"two", "marker3"}, p \in {"same", "foreign"}, a \in {"struct", "union", "void"}}
+        \* dep = "late": no version-1 route is deprecated, only put:2 (by put:3)
+        \cup {[chain |-> "two", pns |-> p, arg |-> a, dep |-> "late", style |-> "rpc", ring |-> FALSE, rsv |-> FALSE] :
+                p \in {"same", "foreign"}, a \in {"struct", "union", "void"}}
 CfgIndex(c) == CHOOSE i \in 1..Cardinality(Cfgs) : TRUE
 CfgSeq == SetToSeq(Cfgs)
 
@@ -45,6 +48,9 @@ AncNs(c) == IF c.pns = "same" THEN "na" ELSE NB(c)
 Schema(c) ==
     ("Color" :> DUnion(NB(c), "", TRUE, <<Tag("red", TVoid), Tag("green", TVoid)>>)) @@
     ("Name"  :> DAlias(NB(c), TStr(1, Unset, ""), "")) @@
+    \* na never mentions nd: it reaches the union Tint only through the alias Shade of the shared namespace
+    ("Tint"  :> DUnion("nd", "", TRUE, <<Tag("dark", TVoid), Tag("light", TVoid)>>)) @@
+    ("Shade" :> DAlias(NB(c), TRef("Tint"), "")) @@
     ("Entry" :> DStruct(AncNs(c), "", <<Fld("ident", Str), Fld("label", TNull(Str)), FldD("rank", S64, VInt(13))>>, <<>>, FALSE)) @@
     (IF c.chain = "marker3"
      THEN ("PinnedEntry" :> DStruct(AncNs(c), "Entry", <<>>, <<>>, FALSE)) ELSE <<>>) @@
@@ -53,6 +59,7 @@ Schema(c) ==
                            FldD("mode", TRef("Color"), VUnion("Color", "green", VNone)),
                            FldD("ratio", TFloat("Float64", Unset, Unset), VFloat(9)),
                            FldD("flag", TBool, VBool(TRUE)),
+                           FldD("shade", TRef("Shade"), VUnion("Tint", "dark", VNone)),
                            Fld("note", TNull(TRef("Name"))),
                            Fld("count", I32)>>, <<>>, FALSE)) @@
     ("Choice" :> DUnion("na", "", FALSE, <<Tag("none_tag", TVoid), Tag("text", Str), Tag("entry", TRef("Entry")),
@@ -91,14 +98,16 @@ ANull   == [k |-> "null"]
 \* attribute values of a route in schema order: host is never written (default "api"), scope is nullable
 AttrVals(r) == <<AStr("api"), IF r.scope = "" THEN ANull ELSE AStr(r.scope), AStr(r.auth), AStr(r.style)>>
 RoutesOf(c) == <<
-    Route("na", "put", 1, ArgType(c), TRef("Entry"), c.dep, IF c.dep = "by" THEN <<"put", 2>> ELSE <<>>, c.style),
-    Route("na", "put", 2, ArgType(c), TVoid, "none", <<>>, "rpc"),
+    Route("na", "put", 1, ArgType(c), TRef("Entry"), IF c.dep = "late" THEN "none" ELSE c.dep,
+          IF c.dep = "by" THEN <<"put", 2>> ELSE <<>>, c.style),
+    Route("na", "put", 2, ArgType(c), TVoid, IF c.dep = "late" THEN "by" ELSE "none",
+          IF c.dep = "late" THEN <<"put", 3>> ELSE <<>>, "rpc"),
     Route("na", "put", 3, TRef("Choice"), TRef("Choice"), "none", <<>>, "rpc"),
-    Route("na", "get_thing", 1, TVoid, TRef("Tree"), "plain", <<>>, "download"),
+    Route("na", "get_thing", 1, TVoid, TRef("Tree"), IF c.dep = "late" THEN "none" ELSE "plain", <<>>, "download"),
     Route("nc", "ping", 1, TVoid, TVoid, "none", <<>>, "rpc"),
     \* (in the ring model nc must import na only, or nb <-> nc would be a direct mutual import)
     Route("nc", "whoami", 1, TVoid, IF c.ring THEN TVoid ELSE TRef("Entry"), "none", <<>>, "rpc") >>
-Namespaces(c) == {"na", NB(c), "nc"}
+Namespaces(c) == {"na", NB(c), "nc", "nd"}
 \* python_types names a module after its namespace, with an underscore appended to Python reserved words
 PyReserved == {"async", "class", "for", "pass", "while", "break", "continue", "import", "from", "global", "lambda"}
 PyModule(ns) == IF ns \in PyReserved THEN ns \o "_" ELSE ns
@@ -143,6 +152,9 @@ CycleReachable(c, f) == \E m \in ReachImp(c, {f}, {f}) : OnCycle(c, m)
 \* ------------------------------------------------------------- surfaces
 PyRouteName(r) == [n |-> r.n, ver |-> r.ver]         \* rendered name, name_v2, ...
 \* Stone type -> PEP 484 type (python_type_mapping), symbolic
+\* what a reference stands for when only alias layers are removed
+RECURSIVE AliasOnly(_, _)
+AliasOnly(sc, t) == IF t.k = "ref" /\ sc[t.n].k = "alias" THEN AliasOnly(sc, sc[t.n].t) ELSE t
 RECURSIVE Pep(_, _, _)
 Pep(sc, cur, t) ==
     CASE t.k = "int" -> [k |-> "int"] [] t.k = "float" -> [k |-> "float"] [] t.k = "str" -> [k |-> "Text"]
@@ -151,7 +163,14 @@ Pep(sc, cur, t) ==
       [] t.k = "list" -> [k |-> "List", e |-> Pep(sc, cur, t.e)]
       [] t.k = "map" -> [k |-> "Dict", v |-> Pep(sc, cur, t.v)]
       [] t.k = "nullable" -> [k |-> "Optional", e |-> Pep(sc, cur, t.e)]
-      [] t.k = "ref" -> IF sc[t.n].k = "alias" THEN Pep(sc, cur, sc[t.n].t)
+      [] t.k = "ref" -> IF sc[t.n].k = "alias"
+                        THEN \* an alias stands for its target; a stub imports the namespaces its spec imports, so an alias of
+                             \* another namespace that stands for a class of a THIRD namespace is named by the alias itself
+                             \* (which that namespace binds to the class)
+                             LET fin == AliasOnly(sc, t) IN
+                             IF sc[t.n].ns # cur /\ fin.k = "ref" /\ sc[fin.n].ns \notin {cur, sc[t.n].ns}
+                             THEN [k |-> "cls", ns |-> sc[t.n].ns, n |-> t.n]
+                             ELSE Pep(sc, cur, sc[t.n].t)
                         ELSE [k |-> "cls", ns |-> IF sc[t.n].ns = cur THEN "" ELSE sc[t.n].ns, n |-> t.n]
 \* language-neutral symbolic type: like Pep but aliases stay references (some backends declare them)
 RECURSIVE Sym(_, _, _)
